@@ -51,10 +51,19 @@ class Lock:
 def run_extract():
     with Lock(".lean.lock"):
         rc, out = sh([sys.executable, os.path.join(HERE, "extract.py")])
+        rc2, out2 = sh([sys.executable, os.path.join(HERE, "bodyx.py")])
     if rc != 0:
         raise RuntimeError("translator crashed:\n" + out)
+    if rc2 != 0:
+        raise RuntimeError("body translator crashed:\n" + out2)
     status = json.load(open(os.path.join(BUILD, "gen_status.json")))
-    return status, out
+    # whole-body tie: one entry per translated function body
+    try:
+        for k, v in json.load(open(os.path.join(BUILD, "body_status.json"))).items():
+            status["Body." + k] = {"status": "ok" if v["status"] == "ok" else "unlowered(%s)" % v.get("why", "")[:80]}
+    except OSError:
+        pass
+    return status, out + out2
 
 
 # ------------------------------------------------------------------------------------------------
@@ -265,7 +274,7 @@ def known_findings(pid):
 # ------------------------------------------------------------------------------------------------
 
 class Engine:
-    def __init__(self, name, gen, features=(), sig=None, release=False, bin=None, compare=True, miri=0, runner=None):
+    def __init__(self, name, gen, features=(), sig=None, release=False, bin=None, compare=True, miri=0, runner=None, body_view=False):
         self.name = name
         self.bin = bin or name
         self.gen = gen            # (tier, seed, params) -> list of scenario strings (without seq)
@@ -275,6 +284,7 @@ class Engine:
         self.compare = compare
         self.miri = miri          # number of sampled scenario lines replayed under Miri (thorough tier / widened search)
         self.runner = runner      # optional callable(lines) -> {seq: answer}: the implementation side is a compiler-verdict corpus
+        self.body_view = body_view  # also compare with the driver's `--body` view (answers computed by interpreting the regenerated function bodies)
 
 
 class Prop:
@@ -307,11 +317,15 @@ def run_engine(eng, lines, tag):
     else:
         rc_b, out_b = cargo_build([eng.bin], eng.features, eng.release)
         if rc_b != 0:
-            return {"build_error": out_b[-2000:], "M": [], "O": [], "n": len(lines), "impl": {}, "model": {}}
+            return {"build_error": out_b[-2000:], "M": [], "O": [], "n": len(lines), "impl": {}, "model": {}, "nbody": 0}
         rc_i, impl, err_i = run_lines(bin_path(eng.bin, eng.release), numbered)
     model = {}
+    body_ans = {}
+    nbody = 0
     if eng.compare:
         rc_m, model, err_m = run_lines(driver_path(), numbered)
+        if eng.body_view:
+            rc_b2, body_ans, err_b2 = run_lines(driver_path(), numbered, args=("--body",))
     M, O = [], []
     for k, l in enumerate(lines):
         a = impl.get(str(k))
@@ -325,7 +339,14 @@ def run_engine(eng, lines, tag):
             mb = model.get(str(k))
             if mb is None or mb.strip() != body:
                 M.append({"engine": eng.name, "scenario": l, "impl": body, "model": mb})
-    return {"M": M, "O": O, "n": len(lines), "impl": impl, "model": model}
+            if eng.body_view:
+                bb = body_ans.get(str(k))
+                if bb is not None and bb.strip() == "n/a":
+                    continue
+                nbody += 1
+                if bb is None or bb.strip() != body:
+                    M.append({"engine": eng.name, "scenario": l, "impl": body, "model": "(interpreted body) %s" % bb})
+    return {"M": M, "O": O, "n": len(lines), "impl": impl, "model": model, "nbody": nbody}
 
 
 def run_miri(eng, lines, seed):
@@ -388,7 +409,9 @@ def check(prop, tier, seed, params):
         lines = list(dict.fromkeys(lines))
         if not lines:
             continue
-        r = run_engine(eng, lines, tier) if driver_ok or not eng.compare else {"M": [], "O": [], "n": 0, "impl": {}, "model": {}}
+        r = run_engine(eng, lines, tier) if driver_ok or not eng.compare else {"M": [], "O": [], "n": 0, "impl": {}, "model": {}, "nbody": 0}
+        if r.get("nbody"):
+            notes.append("body view: %d scenarios of engine %s also answered by interpreting the regenerated function bodies" % (r["nbody"], eng.name))
         if "build_error" in r:
             build_errors.append({"engine": eng.name, "error": r["build_error"]})
         evaluations += r["n"]
